@@ -52,6 +52,12 @@ type World struct {
 	Steps  int
 	Budget int
 	Trail  Trail
+	// RetractSkipsErased: on backtracking, retract/1 skips a snapshot clause that has been removed
+	// meanwhile (false: it succeeds once more without removing anything, as in the ISO 8.9.3.4 example).
+	// The property leaves this open; the harness sets it to what the implementation does.
+	RetractSkipsErased bool
+	// StrictDB: abolish/retractall of a non-existent procedure is reported as unsupported.
+	StrictDB bool
 	// UnknownFail: calling an undefined procedure fails instead of raising existence_error.
 	UnknownFail bool
 }
@@ -59,6 +65,7 @@ type World struct {
 func NewWorld(db *DB, budget int) *World {
 	w := &World{DB: db, Budget: budget}
 	w.Trail.CheckSTO = true
+	w.StrictDB = true
 	return w
 }
 
@@ -751,6 +758,9 @@ func (m *Machine) clauseOrRetract(head, body Term, retract bool, cont *frame) bo
 		for i < len(snapshot) {
 			cl := snapshot[i]
 			i++
+			if retract && cl.Erased && m.W.RetractSkipsErased {
+				continue
+			}
 			ren := map[*Var]*Var{}
 			mark := m.W.Trail.Mark()
 			if Unify(Copy(cl.Head, ren), head, &m.W.Trail) && Unify(Copy(cl.Body, ren), body, &m.W.Trail) {
@@ -807,6 +817,9 @@ func (m *Machine) abolish(pi Term) bool {
 	}
 	p := m.W.DB.pred(string(na), int(ai), false)
 	if p == nil {
+		if m.W.StrictDB {
+			Unsupported("abolish of a procedure that does not exist")
+		}
 		return true
 	}
 	if !p.Dynamic {
